@@ -1,8 +1,151 @@
-//! C03 correspondence streams (stub).
-use crate::util::Opts;
+//! C03: transparency of the translation cache across bank switches. The same history (run a block / jump to an entry
+//! point / write a bank register) is executed through the real `Core::run_code_block` of THIS build (jit feature: warm
+//! cache and a cache emptied before every block; otherwise the interpreter); the runner joins the lines of the two builds.
+//! c03 cfg=T,R,M hist=g3,r,w8448:2,r,... | o=<af,bc,de,hl,sp,ip,bank per r ;...> [c=<same with a cold cache>]
+use crate::cache::CodeCache;
+use crate::emulator::Core;
+use crate::mem::{memory_write_byte, MemoryAreas};
+use crate::roms::*;
+use crate::util::{Opts, Rng};
 use std::io::Write;
 
-pub fn run(sub: &str, _opts: &Opts, _w: &mut dyn Write) {
-  eprintln!("stream c03.{} not implemented", sub);
-  std::process::exit(2);
+pub const N_ENTRY: usize = 8;
+
+/// code patched into the ROM image: bank 0 has plain blocks and bank-switching trampolines, every other bank has
+/// blocks at the same addresses that differ from bank to bank
+pub fn fill_rom(core: &mut Core, banks: usize) {
+  let rom = &mut core.memory.rom;
+  // make every stray path safe: NOP sleds with a `JP 0x0150` every 32 bytes (not across region ends)
+  for i in 0..rom.len() { rom[i] = 0x00; }
+  let mut i = 0x20usize;
+  while i + 3 < rom.len() { if (i & 0x3fff) < 0x3ff0 { rom[i] = 0xc3; rom[i + 1] = 0x50; rom[i + 2] = 0x01; } i += 0x20; }
+  let put = |rom: &mut Box<[u8]>, at: usize, bytes: &[u8]| { for (i, b) in bytes.iter().enumerate() { rom[at + i] = *b; } };
+  for k in 0..N_ENTRY {
+    // bank 0, plain: LD A,k ; INC B ; terminator
+    let at = 0x0150 + k * 0x40;
+    put(rom, at, &[0x3e, k as u8, 0x04]);
+    match k % 4 { 0 => put(rom, at + 3, &[0xc3, 0x50, 0x01]), 1 => put(rom, at + 3, &[0xc9]), 2 => put(rom, at + 3, &[0x18, 0x02]), _ => put(rom, at + 3, &[0xcf]) }
+    // bank 0, trampoline: LD A,<bank> ; LD (0x2100),A ; JP 0x4000 + k*0x40
+    let at = 0x1000 + k * 0x40;
+    let target = 0x4000 + k * 0x40;
+    put(rom, at, &[0x3e, ((k * 5 + 2) % 64) as u8, 0xea, 0x00, 0x21, 0xc3, (target & 0xff) as u8, (target >> 8) as u8]);
+  }
+  put(rom, 0x0000, &[0xc3, 0x50, 0x01]); // a stray RET to 0 goes back to the first entry
+  put(rom, 0x0008, &[0x0c, 0xc9]); // RST 08: INC C ; RET
+  // a block that runs up to the end of bank 0
+  put(rom, 0x3ff8, &[0x3e, 0x77, 0x04, 0x0c, 0x14, 0x1c, 0x00, 0x00]);
+  for b in 1..banks {
+    for k in 0..N_ENTRY {
+      let at = b * 0x4000 + k * 0x40;
+      put(rom, at, &[0x3e, ((b * 7 + k * 3) & 0xff) as u8, 0x06, (b & 0xff) as u8, 0x0c]);
+      match (b + k) % 4 { 0 => put(rom, at + 5, &[0xc3, 0x50, 0x01]), 1 => put(rom, at + 5, &[0xc9]), 2 => put(rom, at + 5, &[0x18, 0x02]), _ => put(rom, at + 5, &[0xcf]) }
+      // JR +2 lands here: HALT
+      put(rom, at + 9, &[0x76]);
+    }
+    // trampoline INSIDE the switchable bank: LD A,<bank'> ; LD (0x2100),A ; LD A,<marker of this bank> ; INC C ; JP 0x0150
+    for k in 0..N_ENTRY {
+      let at = b * 0x4000 + 0x300 + k * 0x40;
+      put(rom, at, &[0x3e, ((b + k + 1) % 64) as u8, 0xea, 0x00, 0x21, 0x3e, ((b * 11 + k) & 0xff) as u8, 0x0c, 0xc3, 0x50, 0x01]);
+    }
+    // first bytes of the bank continue the bank-0 tail block differently per bank
+    put(rom, b * 0x4000 + 0x3f0, &[0x3e, b as u8, 0x76]);
+  }
+  for k in 0..N_ENTRY { let at = 0x0150 + k * 0x40; rom[at + 7] = 0x76; }
+}
+
+pub fn entry(k: usize) -> u16 {
+  match k / N_ENTRY {
+    0 => (0x0150 + (k % N_ENTRY) * 0x40) as u16, 1 => (0x1000 + (k % N_ENTRY) * 0x40) as u16,
+    2 => (0x4000 + (k % N_ENTRY) * 0x40) as u16, 3 => 0x3ff8, _ => (0x4300 + (k % N_ENTRY) * 0x40) as u16,
+  }
+}
+
+pub fn gen_hist(rng: &mut Rng, len: usize, banked_switch: bool) -> Vec<String> {
+  let mut h = Vec::new();
+  for _ in 0..len {
+    match rng.below(10) {
+      0 | 1 | 2 => {
+        if banked_switch && rng.chance(1, 6) { h.push(format!("g{}", 4 * N_ENTRY as u64 + rng.below(N_ENTRY as u64))) }
+        else { h.push(format!("g{}", rng.below(3 * N_ENTRY as u64 + 1))) }
+      },
+      3 => {
+        let a = *rng.pick(&[0x2000u16, 0x2100, 0x3fff, 0x4000, 0x5000, 0x6000, 0x0000]);
+        let v = *rng.pick(&[0u8, 1, 2, 3, 5, 0x1f, 0x20, 0x21, 0x3f, 0x40, 0x7f]);
+        h.push(format!("w{}:{}", a, v));
+      },
+      _ => h.push(String::from("r")),
+    }
+  }
+  h
+}
+
+fn new_core(cfg: (u8, u8, u8)) -> Core {
+  let mut core = mk_core(cfg.0, cfg.1, cfg.2);
+  fill_rom(&mut core, rom_bank_count(cfg.1));
+  let p = &mut core.memory as *mut MemoryAreas;
+  // return addresses for RET: entries in bank 0
+  let mut sp = 0xdf00u16;
+  for k in 0..120 { let e = entry(k % N_ENTRY); memory_write_byte(p, sp, (e & 0xff) as u8); memory_write_byte(p, sp + 1, (e >> 8) as u8); sp += 2; }
+  core.registers.sp = 0xdf00; core.registers.ip = 0x0150; core.registers.af = 0; core.registers.bc = 0; core.registers.de = 0; core.registers.hl = 0xc000;
+  core
+}
+
+fn exec_hist(cfg: (u8, u8, u8), hist: &[String], cold: bool) -> String {
+  let mut core = new_core(cfg);
+  let mut out = Vec::new();
+  for op in hist {
+    let p = &mut core.memory as *mut MemoryAreas;
+    if op == "r" {
+      if cold { core.cache = CodeCache::new(); }
+      if core.registers.sp < 0xdf00 || core.registers.sp > 0xdfe0 { core.registers.sp = 0xdf40; }
+      let ip0 = core.registers.ip as usize;
+      let bank0 = core.memory.cart_state.get_rom_bank();
+      // cache observation (hooks): would the lookup hit, and how many guest bytes does the block that ran cover
+      let mut h = 2;
+      if cfg!(feature = "jit") && crate::mem::can_dynarec(ip0) {
+        core.cache.set_rom_bank(bank0);
+        h = if core.cache.verif_block(ip0).is_some() { 1 } else { 0 };
+      }
+      core.run_code_block();
+      let bt = if h != 2 { core.cache.set_rom_bank(bank0); core.cache.verif_block(ip0).map(|b| b.2).unwrap_or(9999) } else { 0 };
+      let r = &core.registers;
+      let (af, bc, de, hl, sp, ip) = (r.af, r.bc, r.de, r.hl, r.sp, r.ip);
+      out.push(format!("{},{},{},{},{},{},{},{},{},{},{}", af, bc, de, hl, sp, ip, core.memory.cart_state.get_rom_bank(), ip0, bank0, h, bt));
+      // a halted machine restarts from the first entry; keep the history going
+      if core.run_state != crate::emulator::RunState::Run {
+        core.run_state = crate::emulator::RunState::Run;
+        core.registers.ip = 0x0150;
+      }
+    } else if let Some(k) = op.strip_prefix("g") {
+      core.registers.ip = entry(k.parse().unwrap()) as u32;
+    } else if let Some(w) = op.strip_prefix("w") {
+      let mut it = w.split(':');
+      let a: u16 = it.next().unwrap().parse().unwrap(); let v: u8 = it.next().unwrap().parse().unwrap();
+      memory_write_byte(p, a, v);
+    }
+  }
+  out.join(";")
+}
+
+pub fn run(_sub: &str, opts: &Opts, w: &mut dyn Write) {
+  let mut rng = Rng::new(opts.seed ^ 0xc03);
+  let (shard, nshards) = opts.shard();
+  let cfgs: [(u8, u8, u8); 4] = [(0x01, 5, 0), (0x11, 4, 2), (0x03, 1, 3), (0x13, 6, 3)];
+  let n = if opts.thorough { 2500 } else { 75 };
+  let len = if opts.thorough { 400 } else { 120 };
+  let mut idx = 0usize;
+  for &cfg in cfgs.iter() { for _ in 0..n {
+    idx += 1;
+    let hl = 10 + rng.below(len) as usize;
+    // one history in five also uses the trampolines located inside the switchable bank (recorded known finding)
+    let hist = gen_hist(&mut rng, hl, idx % 5 == 0);
+    if idx % nshards != shard { continue; }
+    let o = exec_hist(cfg, &hist, false);
+    if cfg!(feature = "jit") {
+      let c = exec_hist(cfg, &hist, true);
+      writeln!(w, "c03 cfg={},{},{} hist={} | o={} c={}", cfg.0, cfg.1, cfg.2, hist.join(","), o, c).unwrap();
+    } else {
+      writeln!(w, "c03 cfg={},{},{} hist={} | o={}", cfg.0, cfg.1, cfg.2, hist.join(","), o).unwrap();
+    }
+  }}
 }
